@@ -1294,6 +1294,11 @@ def show(t, maxlen=200) -> str:
     return s if len(s) <= maxlen else s[: maxlen - 3] + "..."
 
 
+def key(t, _maxlen=None) -> str:
+    """Untruncated rendering: the only form that may be compared."""
+    return _show(t)
+
+
 def _show(t):
     if not isinstance(t, tuple) or not t:
         return repr(t)
